@@ -93,8 +93,17 @@ func c09(c *Ctx) {
 	for i := 0; i < nRand; i++ {
 		q := g.randQuery(3)
 		// sprinkle richer literals
-		if c.Rng.Intn(3) == 0 {
+		switch c.Rng.Intn(4) {
+		case 0:
 			q = strings.Replace(q, "\"a\"", "\""+strs[c.Rng.Intn(len(strs))]+"\"", 1)
+		case 1:
+			// a literal assembled from pieces: plain characters, every backslash sequence (the eight
+			// known escapes, the escaped quote, unknown ones such as \d \' \\), apostrophes, non-ASCII
+			var sb strings.Builder
+			for k, n := 0, c.Rng.Intn(5); k < n; k++ {
+				sb.WriteString(litPieces[c.Rng.Intn(len(litPieces))])
+			}
+			q = strings.Replace(q, "\"a\"", "\""+sb.String()+"\"", 1)
 		}
 		if c.Rng.Intn(3) == 0 {
 			q = strings.Replace(q, "(1)", "("+[]string{"-0.5", "1e-3", "2.50", "123456789012345", "1E2", "+3", "0.1"}[c.Rng.Intn(7)]+")", 1)
@@ -187,3 +196,7 @@ func c09(c *Ctx) {
 		}
 	}
 }
+
+// pieces of string literals as written in a query: plain characters, every backslash sequence (the
+// eight known escapes, the escaped quote, unknown ones such as \d \' \\), apostrophes, non-ASCII
+var litPieces = []string{"a", "b", " ", "'", "%", "$", "é", `\"`, `\a`, `\b`, `\f`, `\n`, `\r`, `\t`, `\v`, `\d`, `\'`, `\\`, `\.`, `\s`, `\0`, "n", "t", `\w+`}
